@@ -479,6 +479,14 @@ Lemma raw3_y_dir tt sg dy G i j k :
   (s = 0%Z -> raw3_y tt sg dy G i j k = get 0 G [i; j; k; 2%Z]).
 Proof. intros s. unfold raw3_y. cbv zeta. fold s. destruct (Z.eqb_spec s 0); split; intros; try reflexivity; contradiction. Qed.
 
+Lemma okG3_of_sig nz nx ny (G : arr R) :
+  sig G = sig (full [nz; nx; ny; 3%Z] (@nofZ R NumR 0)) -> (0 <= nz)%Z -> (0 <= nx)%Z -> (0 <= ny)%Z -> okG3 nz nx ny G.
+Proof.
+  intros S Hz Hx Hy. split.
+  - apply (sig_wf _ _ S). apply wf_full. repeat constructor; lia.
+  - unfold sig in S. injection S as S _. exact S.
+Qed.
+
 (* (H1) SOLVER LEVEL *)
 Theorem fteik3d_gradient_assembly (slow : arr R) (dz dx dy zsrc xsrc ysrc : R) (nsweep : Z) (tt ttgrad : arr R) (vzero : R) :
   fteik3d slow dz dx dy zsrc xsrc ysrc nsweep true = Ok (tt, ttgrad, vzero) ->
@@ -492,14 +500,12 @@ Theorem fteik3d_gradient_assembly (slow : arr R) (dz dx dy zsrc xsrc ysrc : R) (
     get 0 ttgrad [i; j; k; 2%Z] = normed3 rz rx ry ry.
 Proof.
   intros E sg G0.
-  destruct (out3_is_inv _ _ _ _ _ (fteik3d_out_true slow dz dx dy zsrc xsrc ysrc nsweep) E) as [Et EG].
+  pose proof (out3_is_inv _ _ _ _ _ (fteik3d_out_true slow dz dx dy zsrc xsrc ysrc nsweep) E) as [Et EG].
   split; [exact Et|]. intros i j k Hi Hj Hk.
-  assert (Hok : okG3 (dim slow 0 + 1) (dim slow 1 + 1) (dim slow 2 + 1) G0).
-  { pose proof (grad0_3d_sig slow dz dx dy zsrc xsrc ysrc) as S. fold G0 in S. split.
-    - apply (sig_wf _ _ S). apply wf_full. repeat constructor; lia.
-    - unfold sig in S. injection S as S _. exact S. }
-  rewrite EG, <- Et. fold sg G0.
-  exact (asm3_value _ _ _ tt sg dz dx dy G0 Hok i j k Hi Hj Hk).
+  assert (Hok : okG3 (dim slow 0 + 1) (dim slow 1 + 1) (dim slow 2 + 1) G0)
+    by (apply okG3_of_sig; [apply grad0_3d_sig | lia ..]).
+  clear E. subst tt ttgrad.
+  exact (asm3_value _ _ _ _ sg dz dx dy G0 Hok i j k Hi Hj Hk).
 Qed.
 
 (* (H2) SOLVER LEVEL: the sign of a returned component against its recorded direction is decided by the upwind relation *)
@@ -582,7 +588,7 @@ Proof.
     repeat (apply andb_true_intro; split); apply Rleb_true; lra.
   - exists t, G, v. split; [exact E|]. intros sg G0 i j k Hi Hj Hk. split.
     + exact (proj2 (fteik3d_gradient_assembly _ _ _ _ _ _ _ _ _ _ _ E) i j k Hi Hj Hk).
-    + exact (proj1 (fteik3d_gradient_sign_iff _ _ _ _ _ _ _ _ _ _ _ ltac:(lra) ltac:(lra) ltac:(lra) E i j k Hi Hj Hk)).
+    + exact (proj1 (fteik3d_gradient_sign_iff _ _ _ _ _ _ _ _ _ _ _ Rlt_0_1 Rlt_0_1 Rlt_0_1 E i j k Hi Hj Hk)).
 Qed.
 
 (* 2. over R, assembly level: 2 x 1 x 2 nodes holding 0, 1 / 2, 5; node (1,0,0) has recorded directions (1, 0, -1).  The z
@@ -608,3 +614,45 @@ Proof.
     apply (proj2 (C ltac:(lia))).
     change (get 0 ex3_tt [1%Z; 0%Z; (0 - -1)%Z]) with 5. change (get 0 ex3_tt [1%Z; 0%Z; 0%Z]) with 2. lra.
 Qed.
+
+(* 3. binary64 (lib/Num.v NumF, evaluated by vm_compute), the model of example 1: non-zero directions ARE recorded by the
+      sweeps (node (2,2,2): (1, 1, 1); node (0,0,2): (0, -1, 1)), and in this run every recorded direction points to a
+      neighbour that is not later and every returned component agrees in sign with its direction (an observation about
+      one run, not a theorem about the solver) *)
+Module FloatRun3.
+Import Coq.Floats.PrimFloat.
+Module PF := Coq.Floats.PrimFloat.
+Open Scope Z_scope.
+Definition slowF : arr float := full [2; 2; 2] 1.0%float.
+Definition st : arr float * arr Z :=
+  final_state3 slowF 1.0%float 1.0%float 1.0%float 0.5%float 0.75%float 0.25%float 2.
+Definition run : res (arr float * arr float * float) :=
+  fteik3d slowF 1.0%float 1.0%float 1.0%float 0.5%float 0.75%float 0.25%float 2 true.
+Definition run_tt : arr float := match run with Ok (t, _, _) => t | _ => full [] 0%float end.
+Definition run_grad : arr float := match run with Ok (_, G, _) => G | _ => full [] 0%float end.
+Definition nb (i j k c s : Z) : list Z :=
+  if c =? 0 then [i - s; j; k] else if c =? 1 then [i; j - s; k] else [i; j; k - s].
+Definition axis_ok (i j k c : Z) : bool :=
+  let s := get 0 (snd st) [i; j; k; c] in
+  if s =? 0 then true
+  else PF.leb (get 0%float run_tt (nb i j k c s)) (get 0%float run_tt [i; j; k]) &&
+       PF.leb 0%float (PF.mul (get 0%float run_grad [i; j; k; c]) (PF.of_uint63 (Uint63.of_Z (s + 1)) - 1)%float).
+
+Example recorded_signs_binary64 :
+  dat run_tt = dat (fst st) /\
+  (get 0 (snd st) [2; 2; 2; 0], get 0 (snd st) [2; 2; 2; 1], get 0 (snd st) [2; 2; 2; 2]) = (1, 1, 1) /\
+  (get 0 (snd st) [0; 0; 2; 0], get 0 (snd st) [0; 0; 2; 1], get 0 (snd st) [0; 0; 2; 2]) = (0, -1, 1) /\
+  forallb (fun i => forallb (fun j => forallb (fun k => forallb (fun c => axis_ok i j k c) [0; 1; 2]) [0; 1; 2]) [0; 1; 2])
+          [0; 1; 2] = true.
+Proof. vm_compute. repeat split. Qed.
+End FloatRun3.
+
+Print Assumptions asm3_value.
+Print Assumptions fteik3d_out_true.
+Print Assumptions fteik3d_gradient_assembly.
+Print Assumptions fteik3d_gradient_sign_iff.
+Print Assumptions fteik3d_gradient_sign_partial.
+Print Assumptions grad0_3d_off_cell.
+Print Assumptions fteik3d_gradient_sign_run_R.
+Print Assumptions asm3_sign_ex_R.
+Print Assumptions FloatRun3.recorded_signs_binary64.
